@@ -200,6 +200,11 @@ fn check_e2e(c: &E2eCase) -> Verdict {
     if calls.len() != 1 || calls[0] != want_succ {
         return fail("e2e-successor", format!("callback got {:?}, expected {}", calls.iter().map(|c| gen::hex(c)).collect::<Vec<_>>(), gen::hex(&want_succ)));
     }
+    // the in-memory key object takes the same successor
+    let (o2, after) = libapi::sign_via_key(c.hash, b"c13", &blob, libapi::KeyEntry::TrySign, None);
+    if !o2.is_ok() || after.as_deref() != Some(&want_succ[..]) {
+        return fail("e2e-successor key-object", format!("SigningKey after try_sign at counter {} of {} is {:?} ({}), expected {}", c.counter, levels_str(&c.levels), after.map(|a| gen::hex(&a)), o2.kind(), gen::hex(&want_succ)));
+    }
     // the lifetime query of the real key object
     let remaining = hss::total_leaves(&c.levels).saturating_sub(c.counter as u128).min(u64::MAX as u128);
     match libapi::lifetime(c.hash, &blob) {
@@ -246,6 +251,8 @@ pub fn run(ctx: &Ctx) {
         (vec![(4u32, 10u32); 6], vec![0u64, 1023, 1024, (1 << 50) + 5, (1 << 60) - 2, (1 << 60) - 1]),
         (vec![(4, 5), (8, 2), (4, 10), (2, 2)], vec![0u64, 3, 4, 4095, 4096, 16383, 16384, (1 << 19) - 1]),
         (vec![(8, 2), (4, 10)], vec![1023, 1024, 4095]),
+        (vec![(4, 5), (8, 2)], vec![0, 126, 127]),
+        (vec![(4, 5); 7], vec![(1u64 << 32) - 1, 1u64 << 32, (1u64 << 35) - 2, (1u64 << 35) - 1]),
     ] {
         for c in counters {
             e2e.push(E2eCase { hash: h16, levels: levels.clone(), counter: c });
